@@ -75,10 +75,15 @@ func lowerLabels(ls [][]byte) [][]byte {
 	return o
 }
 
+// rawMode: octets >= 0x80 are written unescaped (names as a user or a zone file may spell them)
+var rawMode bool
+
 func refShowLabel(l []byte) string {
 	var sb strings.Builder
 	for _, b := range l {
 		switch {
+		case rawMode && b >= 0x80:
+			sb.WriteByte(b)
 		case strings.IndexByte(`. '@;()"\`, b) >= 0:
 			sb.WriteByte('\\')
 			sb.WriteByte(b)
@@ -1285,6 +1290,110 @@ func signCase(r *Rng, kp *keyPair, td tdef, idx int) {
 	}
 }
 
+// ---------------------------------------------------------------- raw octets >= 0x80 in owner and embedded names
+// Only ASCII A-Z are folded in the canonical form (RFC 4034 6.2 with RFC 4343): a non-ASCII "case" change or
+// another non-UTF-8 octet is a different name. Fixed name inputs.
+var rawPairs = [][2]string{
+	{"\xc3\x89", "\xc3\xa9"}, {"\xc3\x9c", "\xc3\xbc"}, {"\xce\xa9", "\xcf\x89"}, {"\xe2\x84\xaa", "k"}, {"\xc5\xbf", "s"},
+	{"\xc3\xa9", "\xc3\x89"}, {"\xff", "\xfe"}, {"\xfe", "\xef\xbf\xbd"}, {"\xc3", "\x80"}, {"\x80", "\xc3"},
+}
+
+func replaceLabels(ls [][]byte, a, b string) [][]byte {
+	o := make([][]byte, len(ls))
+	for i, l := range ls {
+		o[i] = bytes.ReplaceAll(l, []byte(a), []byte(b))
+	}
+	return o
+}
+
+func (x *rec) replaced(a, b string, owner, rdata bool) *rec {
+	y := &rec{owner: x.owner, typ: x.typ, class: x.class, ttl: x.ttl}
+	if owner {
+		y.owner = replaceLabels(x.owner, a, b)
+	}
+	y.rr = dns.Copy(x.rr)
+	y.rr.Header().Name = showName(y.owner)
+	for _, f := range x.flds {
+		if f.kind == 'N' && rdata {
+			f = N(replaceLabels(f.name, a, b))
+		}
+		y.flds = append(y.flds, f)
+	}
+	setNames(y.rr, y.flds)
+	return y
+}
+
+func rawCase(r *Rng, kp *keyPair, td tdef, pair [2]string, pos int) {
+	rawMode = true
+	defer func() { rawMode = false }()
+	q := pair[0]
+	x := []byte("a" + q + "B")
+	owner := append([][]byte{x}, kp.owner...)
+	if pos == 1 {
+		owner = append([][]byte{[]byte("Www"), []byte(q)}, kp.owner...)
+	}
+	k := 0
+	nm := func() [][]byte {
+		k++
+		return [][]byte{[]byte(fmt.Sprintf("Ns%d", k)), []byte(q + "Zz"), x, []byte("Org")}[pos:]
+	}
+	rs := []*rec{genRec(r, td, owner, dns.ClassINET, 300, nm), genRec(r, td, owner, dns.ClassINET, 300, nm)}
+	signer := kp.owner
+	g := &dns.RRSIG{Hdr: dns.RR_Header{Ttl: 300}, Algorithm: kp.k.Algorithm, Expiration: 2000000000, Inception: 1000000000, KeyTag: kp.k.KeyTag(), SignerName: showName(signer)}
+	st["raw_sign_checked"]++
+	if err := g.Sign(kp.priv, rrsOf(rs)); err != nil {
+		Viol("C10/Sign/error", "Sign failed on names with raw octets >= 0x80: "+err.Error(), mkIn(kp, g, nil, rs, "raw"))
+		return
+	}
+	sf := sigFOf(g, owner, signer)
+	in := mkIn(kp, g, sf, rs, "raw octets "+Hx([]byte(q)))
+	canonCase(r, sf, rs, true)
+	sb, _ := base64.StdEncoding.DecodeString(g.Signature)
+	body, ok := refCanon(sf, rs, rfcLower)
+	if !ok || !cryptoVerify(g.Algorithm, kp.pub, append(refSigPrefix(sf), body...), sb) {
+		Viol("C10/Sign/signature-not-over-rfc-octets", "names with raw octets >= 0x80: the signature does not verify over the octets with only A-Z folded", in)
+	}
+	if got := verifyCase(kp, kp.k, kp.owner, g, sf, rs, true); got != "ok:" {
+		Viol("C10/Verify/sign-output-rejected", "Verify("+got+") on the output of Sign (names with raw octets >= 0x80)", in)
+		return
+	}
+	// ASCII letters re-spelled: still valid
+	{
+		o2 := flipCase(r, owner)
+		var rs2 []*rec
+		for _, y := range rs {
+			rs2 = append(rs2, y.variant(r, o2, y.ttl, rfcLower[td.typ]))
+		}
+		if got := verifyCase(kp, kp.k, kp.owner, g, sf, rs2, true); got != "ok:" {
+			Viol("C10/Verify/invariance-owner-case", "Verify("+got+") after re-spelling ASCII letters of names that also hold raw octets >= 0x80", mkIn(kp, g, sf, rs2, "raw"))
+		}
+	}
+	// a non-ASCII "case" partner / another non-UTF-8 octet is another name: must be refused
+	for _, c := range []struct {
+		name         string
+		owner, rdata bool
+	}{{"owner-nonascii-octets", true, false}, {"rdata-nonascii-octets", false, true}} {
+		var rs2 []*rec
+		for _, y := range rs {
+			rs2 = append(rs2, y.replaced(q, pair[1], c.owner, c.rdata))
+		}
+		if c.rdata && bytes.Equal(rs2[0].rdata(false), rs[0].rdata(false)) {
+			continue // the type has no embedded name
+		}
+		g2 := dns.Copy(g).(*dns.RRSIG)
+		s2 := *sf
+		if c.owner {
+			s2.owner = rs2[0].owner
+			g2.Hdr.Name = showName(s2.owner)
+		}
+		st["raw_alteration_checked"]++
+		got := verifyCase(kp, kp.k, kp.owner, g2, &s2, rs2, true)
+		if got == "ok:" || got == "panic" {
+			Viol("C10/Verify/accepts-altered-"+c.name, fmt.Sprintf("Verify(%s) after replacing the raw octets %x by %x (not an ASCII case change)", got, q, pair[1]), mkIn(kp, g2, &s2, rs2, c.name))
+		}
+	}
+}
+
 func runC10(r *Rng, tier string, n int) {
 	zone := [][]byte{[]byte("eXample"), []byte("org")}
 	perKey := 3
@@ -1316,6 +1425,25 @@ func runC10(r *Rng, tier string, n int) {
 				kp := keys[(ti*2+j+rep*5)%len(keys)]
 				signCase(r, kp, td, idx)
 				idx++
+			}
+		}
+	}
+	// raw high octets in owner and embedded names
+	{
+		var ed *keyPair
+		for _, kp := range keys {
+			if kp.k.Algorithm == 15 && len(kp.owner) == 1 {
+				ed = kp
+				break
+			}
+		}
+		byTyp := map[uint16]tdef{}
+		for _, td := range tdefs {
+			byTyp[td.typ] = td
+		}
+		for pi, pair := range rawPairs {
+			for ti, t := range []uint16{dns.TypeNS, dns.TypeMX, dns.TypeSOA, dns.TypeNXT, dns.TypeTXT, dns.TypeNSEC} {
+				rawCase(r, ed, byTyp[t], pair, (pi+ti)%2)
 			}
 		}
 	}
